@@ -136,6 +136,7 @@ type CaseRec struct {
 	stamps    map[int64]bool
 	sigs      map[string]string // key -> sexp line
 	addrs     map[string]string
+	Mon       *ChainMonitor
 }
 
 func NewCaseRec(id string, n *Node, universe []string) *CaseRec {
@@ -194,6 +195,13 @@ func (c *CaseRec) noteChain() {
 
 func (c *CaseRec) record(kind string, opHead string, res string) {
 	c.noteChain()
+	if c.Mon != nil {
+		step := fmt.Sprintf("op %d (%s)", len(c.Ops), kind)
+		blocks := c.Node.AllBlocks()
+		c.Mon.CheckChain(blocks, step)
+		c.Mon.CheckStable(blocks, step, kind == "update")
+		c.Mon.CheckDerived(c.Node, blocks, c.Universe, step)
+	}
 	d := "R=" + res + "#" + c.Node.Digest(c.Universe)
 	c.Digests = append(c.Digests, d)
 	c.OpKinds = append(c.OpKinds, kind+":"+res)
@@ -205,6 +213,8 @@ func (c *CaseRec) Validate(ts int64) string {
 	n := c.Node
 	c.stamps[ts] = true
 	before := len(n.AllBlocks())
+	poolBefore := append([]*ledger.Transaction(nil), n.Pool.Transactions()...)
+	lastTsBefore := n.Chain.LastBlockTimestamp()
 	perm := ShufflePerm(ts, len(n.Pool.Transactions()))
 	n.Log.Take()
 	n.Pool.Validate(ts)
@@ -229,8 +239,14 @@ func (c *CaseRec) Validate(ts int64) string {
 		}
 	}
 	res := "refused"
-	if len(n.AllBlocks()) > before {
+	if after := n.AllBlocks(); len(after) > before {
 		res = "produced:" + strings.Join(drops, ",")
+		if c.Mon != nil {
+			if before > 0 && (ts-lastTsBefore)%n.Set.Interval != 0 {
+				c.Mon.Unaligned = true
+			}
+			c.Mon.CheckProduced(after[len(after)-1], poolBefore, len(n.Pool.Transactions()), n.Validator, before == 0, fmt.Sprintf("op %d (validate)", len(c.Ops)))
+		}
 	}
 	var ps []string
 	for _, p := range perm {
@@ -245,6 +261,7 @@ func (c *CaseRec) Admit(t *ledger.Transaction) string {
 	c.noteTx(t)
 	n.Log.Take()
 	before := len(n.Pool.Transactions())
+	poolBefore := append([]*ledger.Transaction(nil), n.Pool.Transactions()...)
 	n.Pool.AddTransaction(t, "127.0.0.1:10601", n.Senders.host)
 	lines := n.Log.Take()
 	res := "ok"
@@ -255,6 +272,9 @@ func (c *CaseRec) Admit(t *ledger.Transaction) string {
 				res = "err:" + classify(l)
 			}
 		}
+	}
+	if res == "ok" && c.Mon != nil {
+		c.Mon.CheckAdmit(t, n.Chain.LastBlockTimestamp(), n.Chain.LastBlockTransactions(), poolBefore, fmt.Sprintf("op %d (admit)", len(c.Ops)))
 	}
 	c.record("admit", "admit "+sxTx(t), res)
 	return res
